@@ -17,7 +17,9 @@ use super::header::masks;
 
 /// Returns the packet id from the header buffer
 pub fn id(buffer: &[u8]) -> crate::Result<u16> {
-    buffer[..2]
+    buffer
+        .get(..2)
+        .ok_or(crate::SimpleDnsError::InvalidHeaderData)?
         .try_into()
         .map(u16::from_be_bytes)
         .map_err(|_| crate::SimpleDnsError::InvalidHeaderData)
@@ -25,7 +27,9 @@ pub fn id(buffer: &[u8]) -> crate::Result<u16> {
 
 /// Returns the questions count from the header buffer
 pub fn questions(buffer: &[u8]) -> crate::Result<u16> {
-    buffer[4..6]
+    buffer
+        .get(4..6)
+        .ok_or(crate::SimpleDnsError::InvalidHeaderData)?
         .try_into()
         .map(u16::from_be_bytes)
         .map_err(|_| crate::SimpleDnsError::InvalidHeaderData)
@@ -39,7 +43,9 @@ pub(crate) fn set_questions(buffer: &mut [u8], question_count: u16) {
 
 /// Returns the answers count from the header buffer
 pub fn answers(buffer: &[u8]) -> crate::Result<u16> {
-    buffer[6..8]
+    buffer
+        .get(6..8)
+        .ok_or(crate::SimpleDnsError::InvalidHeaderData)?
         .try_into()
         .map(u16::from_be_bytes)
         .map_err(|_| crate::SimpleDnsError::InvalidHeaderData)
@@ -53,7 +59,9 @@ pub(crate) fn set_answers(buffer: &mut [u8], answers_count: u16) {
 
 /// Returns the name servers count from the header buffer
 pub fn name_servers(buffer: &[u8]) -> crate::Result<u16> {
-    buffer[8..10]
+    buffer
+        .get(8..10)
+        .ok_or(crate::SimpleDnsError::InvalidHeaderData)?
         .try_into()
         .map(u16::from_be_bytes)
         .map_err(|_| crate::SimpleDnsError::InvalidHeaderData)
@@ -67,7 +75,9 @@ pub(crate) fn set_name_servers(buffer: &mut [u8], name_servers_count: u16) {
 
 /// Returns the additional records from the header buffer
 pub fn additional_records(buffer: &[u8]) -> crate::Result<u16> {
-    buffer[10..12]
+    buffer
+        .get(10..12)
+        .ok_or(crate::SimpleDnsError::InvalidHeaderData)?
         .try_into()
         .map(u16::from_be_bytes)
         .map_err(|_| crate::SimpleDnsError::InvalidHeaderData)
@@ -112,7 +122,9 @@ pub(crate) fn remove_flags(buffer: &mut [u8], flags: PacketFlag) -> crate::Resul
 /// Verify if buffer has the flags set.  
 /// WARNING: This information may be wrong if there is an OPT record in packet
 pub fn has_flags(buffer: &[u8], flags: PacketFlag) -> crate::Result<bool> {
-    buffer[2..4]
+    buffer
+        .get(2..4)
+        .ok_or(crate::SimpleDnsError::InvalidHeaderData)?
         .try_into()
         .map(u16::from_be_bytes)
         .map(|bits| PacketFlag::from_bits_truncate(bits).contains(flags))
@@ -122,7 +134,9 @@ pub fn has_flags(buffer: &[u8], flags: PacketFlag) -> crate::Result<bool> {
 /// Get the RCODE from the buffer.  
 /// WARNING: This information may be wrong if there is an OPT record in packet
 pub fn rcode(buffer: &[u8]) -> crate::Result<RCODE> {
-    buffer[2..4]
+    buffer
+        .get(2..4)
+        .ok_or(crate::SimpleDnsError::InvalidHeaderData)?
         .try_into()
         .map(u16::from_be_bytes)
         .map(|flags| (flags & masks::RESPONSE_CODE_MASK).into())
@@ -131,7 +145,9 @@ pub fn rcode(buffer: &[u8]) -> crate::Result<RCODE> {
 
 /// Get the OPCODE from the buffer
 pub fn opcode(buffer: &[u8]) -> crate::Result<OPCODE> {
-    buffer[2..4]
+    buffer
+        .get(2..4)
+        .ok_or(crate::SimpleDnsError::InvalidHeaderData)?
         .try_into()
         .map(u16::from_be_bytes)
         .map(|flags| ((flags & masks::OPCODE_MASK) >> masks::OPCODE_MASK.trailing_zeros()).into())
